@@ -232,3 +232,16 @@ CHECKS["C12"] = EnumCheck()
 from harness.checks_ptr import PtrCheck  # noqa: E402
 
 CHECKS["C16"] = PtrCheck()
+
+
+from harness.checks_session import SessionCheck  # noqa: E402
+
+CHECKS["C14"] = SessionCheck("C14")
+CHECKS["C17"] = SessionCheck("C17")
+
+
+from harness.checks_incremental import IncrementalCheck  # noqa: E402
+
+CHECKS["C18"] = IncrementalCheck()
+CHECKS["C04"].mc_models = ("MC_Codec", "MC_Layout")
+CHECKS["C06"].mc_models = ("MC_Codec", "MC_Bits", "MC_Layout")
